@@ -262,6 +262,7 @@ def run_history(M, seq, preload=False):
     i = 0
     while i < len(seq):
         # one db_session: up to and including the next END / FAIL
+        start = i
         try:
             with orm.db_session:
                 if preload:
@@ -293,6 +294,7 @@ def run_history(M, seq, preload=False):
         except (core.OrmError, core.DBException, core.IntegrityError, core.DatabaseError) as e:
             # the session failed loudly (unorderable flush, constraint, ...): nothing since the last commit may be visible; skip the rest of that session
             work = committed.copy()
+            if i == start: i += 1                                          # the session failed before its first operation (while loading): that operation is skipped too
             while i < len(seq) and seq[i - 1] not in ('END', 'FAIL'): i += 1
         check('after %d operations' % i)
     return bad
